@@ -37,6 +37,10 @@ ConstructF(c, decl, two, five) ==
     [] c = "else"    -> <<If(Bin("==", five, I(2)), Block(<<I(0)>>), Block(decl \o <<Rec>>))>>
     [] c = "ifset"   -> <<IfSet("y", WInt, five, Block(decl \o <<Rec>>), NoneV)>>
     [] c = "ifset-x" -> <<IfSet("x", WInt, two, Block(<<Rec>>), NoneV)>>          \* the bound name itself
+    \* the test fails: the else branch must still see the OUTER x
+    [] c = "ifset-x-else" -> <<IfSet("x", WStr, two, Block(<<I(0)>>), Block(<<Asg("=", V("inside"), Bin("+", V("x"), I(1)))>>))>>
+    [] c = "match-ty-x-else" -> <<Match(two, <<ArmTy("x", WStr, Block(<<I(0)>>)), ArmOther(Block(<<Asg("=", V("inside"), Bin("+", V("x"), I(1)))>>))>>)>>
+    [] c = "match-ty-x-later-arm" -> <<Match(two, <<ArmTy("x", WStr, Block(<<I(0)>>)), ArmTy("q", WInt, Block(<<Asg("=", V("inside"), Bin("+", V("x"), I(1)))>>))>>)>>
     [] c = "ifset-x-value" -> <<Set("iv", IfSet("x", WInt, two, V("x"), I(0))), Asg("=", V("inside"), V("iv"))>>
     [] c = "match-ty" -> <<Match(five, <<ArmTy("y", WInt, Block(decl \o <<Rec>>))>>)>>
     [] c = "match-ty-x" -> <<Match(two, <<ArmTy("x", WInt, Block(<<Rec>>))>>)>>
@@ -55,7 +59,7 @@ ConstructF(c, decl, two, five) ==
     [] c = "lambda"  -> <<CallE(FnE(<<>>, WVoid, decl \o <<Rec>>), <<>>)>>
 Construct(c, decl) == ConstructF(c, decl, H(2), H(5))
 Constructs == {"block", "mod", "if", "else", "ifset", "match-ty", "match-val", "match-other", "loop", "while", "for", "fn", "lambda"}
-BoundByConstruct == {"ifset-x", "ifset-x-value", "match-ty-x", "match-ty-x-value", "whileset", "for-x", "fn-param"}
+BoundByConstruct == {"ifset-x", "ifset-x-value", "ifset-x-else", "match-ty-x", "match-ty-x-value", "match-ty-x-else", "match-ty-x-later-arm", "whileset", "for-x", "fn-param"}
 
 T3Ty == WTup(<<WInt, WInt, WInt>>)
 \* the same grid inside a closure: outer x, the inner value and the scrutinee are CAPTURED parameters of the
@@ -116,6 +120,15 @@ CaptureCases == {
   Case("param-shadows-own-name", <<FnDecl("f", <<P("f", WInt)>>, WInt, <<Ret(V("f"))>>), CallE(V("f"), <<H(3)>>)>>, IntV(3)),
   Case("param-shadows-outer", <<Set("a", H(1)), FnDecl("f", <<P("a", WInt)>>, WInt, <<Ret(V("a"))>>), TupE(<<CallE(V("f"), <<H(7)>>), V("a")>>)>>,
        TupV(<<IntV(7), IntV(1)>>)),
+  \* a declaration becomes visible only after its whole initialiser was evaluated
+  Case("destruct-swap", <<Set("a", H(1)), Set("b", H(2)), Destruct(<<"a", "b">>, TupE(<<V("b"), V("a")>>)), TupE(<<V("a"), V("b")>>)>>, TupV(<<IntV(2), IntV(1)>>)),
+  Case("destruct-rotate", <<Set("x", H(1)), Set("y", H(2)), Set("z", H(3)), Destruct(<<"x", "y", "z">>, TupE(<<V("y"), V("z"), V("x")>>)), TupE(<<V("x"), V("y"), V("z")>>)>>, T3(2, 3, 1)),
+  Case("destruct-closure-sees-old", <<Set("a", H(1)), Set("b", H(2)), Destruct(<<"a", "get">>, TupE(<<V("b"), FnE(<<>>, WInt, <<Ret(V("a"))>>)>>)),
+                                      TupE(<<V("a"), CallE(V("get"), <<>>)>>)>>, TupV(<<IntV(2), IntV(1)>>)),
+  Case("destruct-swap-in-fn", <<FnDecl("sw", <<P("a", WInt), P("b", WInt)>>, WTup(<<WInt, WInt>>), <<Destruct(<<"a", "b">>, TupE(<<V("b"), V("a")>>)), Ret(TupE(<<V("a"), V("b")>>))>>),
+                                CallE(V("sw"), <<H(1), H(2)>>)>>, TupV(<<IntV(2), IntV(1)>>)),
+  Case("set-self-reference", <<Set("x", H(1)), Set("x", Block(<<Set("x", Bin("+", V("x"), I(1))), Bin("*", V("x"), I(10))>>)), V("x")>>, IntV(20)),
+  Case("set-self-reference-fn", <<Set("x", H(1)), Set("x", CallE(FnE(<<>>, WInt, <<Ret(Bin("+", V("x"), I(1)))>>), <<>>)), V("x")>>, IntV(2)),
   Case("block-value-and-scope", <<Set("x", H(1)), Set("v", Block(<<Set("x", H(2)), Bin("+", V("x"), I(1))>>)), TupE(<<V("v"), V("x")>>)>>,
        TupV(<<IntV(3), IntV(1)>>))
 }
